@@ -5036,6 +5036,130 @@ def k_selector_ctx(E, tier):
     return rec
 
 
+_TPL_SHORT = 'b"\\x01#\\xc0\\xc0\\xc0\\x00"'
+_TPL_LONG = 'b"\\x01#\\xc3 \\x00\\x00i\\x02\\x00\\xc3 \\x00\\x00i\\x02\\x00\\xc3 \\x00\\x00i\\x02\\x00\\x00"'
+
+
+def k_rgba_hex_text(E, tier):
+    """C33 (hex / rgb() text of an opaque integer colour): in Formatted<Rgba>::fmt the three-digit form
+    `#xyz` is written with the digits r/17, g/17, b/17 — red, green, blue in this order — and only on paths
+    where each channel is a multiple of 17 (so that digit d denotes the byte 17*d); the six-digit form and
+    `rgb(r, g, b)` are written with the three bytes themselves in that order (two zero-padded hex digits
+    each for the hex form).  Names come from Rgba::name (a static table: outside)."""
+    fmts = E.load_enum("value/colors/rgba.rs", "RgbFormat")
+    f = E.find(name_re=r"^rgba::<impl at .*>::fmt$", contains=["Rgba::try_bytes", "new_lower_hex"])
+    rec = Rec("<Formatted<Rgba> as Display>::fmt (hex / rgb text)", f, E)
+    ctx = E.ctx()
+    me = sym.Opaque("Formatted<Rgba>", "self", ctx)
+    out = sym.Opaque("Formatter", "out", ctx)
+    r, g, b = (ctx.fresh_scalar(("bv", 8, False), n) for n in ("red", "green", "blue"))
+    compressed = ctx.fresh_scalar("bool", "compressed")
+
+    def full(ex, st, x):
+        while isinstance(x, sym.Ref):
+            x = ex.deref(st, x)
+        return x
+
+    def m_try_bytes(ex, st, c, a, d):
+        some, none = st.fork(), st.fork()
+        some.events.append(sym.Event("bytes", [], None, len(st.pc)))
+        return [(some, sym.Agg(d, "Some", {"0": sym.Agg("tuple", None, {"0": r, "1": g, "2": b})}, 1)), (none, sym.Agg(d, "None", {}, 0))]
+
+    def m_name(ex, st, c, a, d):
+        some, none = st.fork(), st.fork()
+        some.events.append(sym.Event("has-name", [], None, len(st.pc)))
+        return [(some, sym.Agg(d, "Some", {"0": sym.Opaque("&str", "colour-name", ctx)}, 1)), (none, sym.Agg(d, "None", {}, 0))]
+
+    def m_arg(kind):
+        def m(ex, st, c, a, d):
+            return sym.Agg("fmt::Argument", "ARG", {"kind": sym.ConstStr(kind), "0": full(ex, st, a[0])})
+        return m
+
+    def m_arguments(ex, st, c, a, d):
+        arr = full(ex, st, a[1])
+        parts = [arr.fields[k] for k in sorted(arr.fields, key=lambda z: int(z))] if isinstance(arr, sym.Agg) else []
+        tpl = a[0].s if isinstance(a[0], sym.ConstStr) else "?"
+        return sym.Agg("fmt::Arguments", "ARGS", {"tpl": sym.ConstStr(tpl), "n": len(parts), **{str(i): x for i, x in enumerate(parts)}})
+
+    def m_write_fmt(ex, st, c, a, d):
+        st.events.append(sym.Event("write", [a[1]], None, len(st.pc)))
+        return sym.Opaque(d or "Result", "fmt-result", ctx)
+
+    def m_write_name(ex, st, c, a, d):
+        st.events.append(sym.Event("write-name", [full(ex, st, a[0])], None, len(st.pc)))
+        return sym.Opaque(d or "Result", "fmt-result", ctx)
+
+    def m_write_rgba(ex, st, c, a, d):
+        st.events.append(sym.Event("write-rgba", a, None, len(st.pc)))
+        return sym.Opaque(d or "Result", "fmt-result", ctx)
+
+    models = [
+        (r"^Rgba::try_bytes$", m_try_bytes), (r"^Format::is_compressed$", lambda ex, st, c, a, d: compressed), (r"^Rgba::name$", m_name),
+        (r"^core::str::<impl str>::len$", lambda ex, st, c, a, d: ctx.fresh_scalar(("bv", 64, False), "name_len")),
+        (r"^core::fmt::rt::Argument::<'_>::new_lower_hex::<u8>$", m_arg("hex")), (r"^core::fmt::rt::Argument::<'_>::new_display::<u8>$", m_arg("display")),
+        (r"^Arguments::<'_>::new::<", m_arguments), (r"^Formatter::<'_>::write_fmt$", m_write_fmt), (r"^<str as std::fmt::Display>::fmt$", m_write_name),
+        (r"^write_rgba$", m_write_rgba), (r"^Rgba::all_zero$", lambda ex, st, c, a, d: ctx.fresh_scalar("bool", "all_zero")),
+        (r"^Arguments::<'_>::from_str$", lambda ex, st, c, a, d: sym.Agg("fmt::Arguments", "ARGS", {"tpl": a[0] if isinstance(a[0], sym.ConstStr) else sym.ConstStr("?"), "n": 0})),
+    ] + BASE_MODELS
+    ex = sym.Executor(ctx, models=models, feasibility=E.feasibility(ctx), max_paths=4000)
+    paths = [p for p in ex.run(f, [sym.Ref("val", me), out]) if p.status == "return"]
+    rec.paths = len(paths)
+    rgba = me.children.get("0")
+    src = None
+    if isinstance(rgba, sym.Opaque):
+        rg = rgba.children.get("deref")
+        src = (rg.children.get("4") if isinstance(rg, sym.Opaque) else None) or rgba.children.get("4")
+    SD = ex.discriminant(src).term if src is not None else None
+    # representation invariant of Rgba (kept by the parser and by reset_source on every modification):
+    # a colour whose source format is ShortHex has channels that are multiples of 17
+    mult = lambda t: "(= (bvurem %s %s) %s)" % (t, bvlit(17, 8), bvlit(0, 8))
+    inv = ["(=> (= %s %s) (and %s %s %s))" % (SD, bvlit(fmts.index("ShortHex"), 64), mult(r.term), mult(g.term), mult(b.term))] if SD else []
+    div17 = lambda t: "(bvudiv %s %s)" % (t, bvlit(17, 8))
+    seen = set()
+    for i, p in enumerate(paths):
+        if not any(e.callee == "bytes" for e in p.events):
+            continue
+        wr = [e for e in p.events if e.callee == "write"]
+        wn = [e for e in p.events if e.callee == "write-name"]
+        if wn and not wr:
+            seen.add("name")
+            continue
+        if len(wr) != 1 or not isinstance(wr[0].args[0], sym.Agg):
+            rec.add("path %d: one formatted write (shape not recognised)" % i, {"verdict": "inconclusive", "per_solver": {}, "time_s": 0})
+            continue
+        ar = wr[0].args[0]
+        tpl = ar.fields["tpl"].s
+        args = [ar.fields[str(k)] for k in range(ar.fields.get("n", 0))]
+        vals = [x.fields.get("0") for x in args if isinstance(x, sym.Agg)]
+        kinds = [x.fields["kind"].s for x in args if isinstance(x, sym.Agg)]
+        if len(vals) != 3 or not all(isinstance(v, sym.Scalar) for v in vals):
+            rec.add("path %d: three channel arguments (shape not recognised)" % i, {"verdict": "inconclusive", "per_solver": {}, "time_s": 0})
+            continue
+        if tpl == _TPL_SHORT and kinds == ["hex"] * 3:
+            want = "(and (= %s %s) (= %s %s) (= %s %s) %s %s %s)" % (vals[0].term, div17(r.term), vals[1].term, div17(g.term), vals[2].term, div17(b.term), mult(r.term), mult(g.term), mult(b.term))
+            res = E.decide(ctx, inv + p.pc + ["(not %s)" % want], model_names=[r.term, g.term, b.term] + ([SD] if SD else []) + [compressed.term])
+            rec.add("path %d: `#xyz` is written with the digits red/17, green/17, blue/17 and only when every channel is a multiple of 17" % i, res, {"lift": "hexcolor"})
+            seen.add("short")
+        elif tpl == _TPL_LONG and kinds == ["hex"] * 3:
+            want = "(and (= %s %s) (= %s %s) (= %s %s))" % (vals[0].term, r.term, vals[1].term, g.term, vals[2].term, b.term)
+            res = E.decide(ctx, inv + p.pc + ["(not %s)" % want], model_names=[r.term, g.term, b.term])
+            rec.add("path %d: `#rrggbb` is written with the red, green and blue bytes in this order (two zero-padded hex digits each)" % i, res, {"lift": "hexcolor"})
+            seen.add("long")
+        elif kinds == ["display"] * 3 and "rgb(" in tpl:
+            want = "(and (= %s %s) (= %s %s) (= %s %s))" % (vals[0].term, r.term, vals[1].term, g.term, vals[2].term, b.term)
+            res = E.decide(ctx, inv + p.pc + ["(not %s)" % want], model_names=[r.term, g.term, b.term])
+            rec.add("path %d: `rgb(r, g, b)` is written with the three bytes in this order" % i, res, {"lift": "hexcolor"})
+            seen.add("rgb")
+        else:
+            rec.add("path %d: a known hex / rgb template (shape not recognised: %s)" % (i, tpl[:40]), {"verdict": "inconclusive", "per_solver": {}, "time_s": 0})
+    need = {"short", "long", "rgb", "name"}
+    if not need <= seen:
+        rec.add("all four text forms explored (%s missing)" % sorted(need - seen), {"verdict": "inconclusive", "per_solver": {}, "time_s": 0})
+    rec.notes.append("assumed representation invariant: source format ShortHex implies all three channels are multiples of 17 (set by the parser for `#abc` literals, "
+                     "reset by reset_source on modification); template bytes of the pinned nightly's fmt::Arguments encoding")
+    return rec
+
+
 def k_value_eq_symmetric(E, tier):
     """C12: css::Value::eq is symmetric as a function of the two values' kinds and of the (symmetric)
     comparisons of their parts: eq(a,b) and eq(b,a) are executed symbolically and must be the same
